@@ -52,6 +52,34 @@ EndRule(api, res) ==
      ELSE /\ \A k \in (L - 2)..L : IsEofRes(res[k])
           /\ \A k \in 1..L : ~IsNone(res[k])
 
+(***************************************************************************)
+(* The same clauses for an embedded-hal 0.2 serial source: there is no     *)
+(* end of input (an exhausted schedule answers would-block; the recorded   *)
+(* run stops after two such answers), so next() never returns None, no     *)
+(* end-of-file error appears, and bytes of an unfinished frame may remain  *)
+(* unreported at the end (TileOpen).                                       *)
+(***************************************************************************)
+RECURSIVE TileOpen(_, _, _, _)
+TileOpen(evs, k, bnd, T) ==
+  IF k > Len(evs) THEN bnd <= T
+  ELSE LET e == evs[k] pos == e[1] kind == e[2] IN
+    CASE kind = 1 -> pos - FrameLen(EvArgs(e)) = bnd /\ TileOpen(evs, k + 1, pos, T)
+      [] kind = 2 -> Len(e) = 3 /\ pos = bnd + e[3] + 8 /\ TileOpen(evs, k + 1, bnd + e[3], T)
+      [] kind \in {3, 4, 5} -> pos > bnd /\ TileOpen(evs, k + 1, pos, T)
+      [] kind = 9 -> Len(e) = 4 /\ (IF e[3] = 1 THEN e[4] = 0 /\ TileOpen(evs, k + 1, bnd, T)
+                                   ELSE e[3] = 2 /\ e[4] = pos - bnd /\ TileOpen(evs, k + 1, pos, T))
+      [] kind = 13 -> TileOpen(evs, k + 1, bnd, T)
+      [] OTHER -> FALSE
+
+FaultClausesEh(items, api, res, clean, fresh) ==
+  /\ \A k \in 1..Len(res) : IsEv(res[k]) /\ ~Abnormal(res[k]) /\ ~IsNone(res[k]) /\ ~IsEofRes(res[k])
+  /\ (CountItems(items, 302) = 0 =>
+        SelectSeq(res, LAMBDA e : ~IsWbRes(e)) = SelectSeq(clean, LAMBDA e : ~IsWbRes(e)))
+  /\ Len(SelectSeq(res, IsWbRes)) = CountItems(items, 300) + 2          \* every would-block once, plus the two final ones
+  /\ \A k \in 1..Len(res) : (res[k][2] = 9 /\ res[k][3] = 1) => res[k][4] = 0
+  /\ OtherRule(items, res, fresh)
+  /\ TileOpen(res, 1, 0, NBytes(items))
+
 FaultClauses(items, api, res, clean, fresh) ==
   /\ \A k \in 1..Len(res) : IsEv(res[k]) /\ ~Abnormal(res[k])
   /\ Transparent(items, res, clean)
